@@ -55,7 +55,11 @@ var Errnos = map[string]syscall.Errno{
 	"EEXIST": syscall.EEXIST, "EINTR": syscall.EINTR, "ETIMEDOUT": syscall.ETIMEDOUT,
 }
 
+// Samples: catalogue name -> a sample value of that Go type (for HasType).
+var Samples = map[string]error{}
+
 func reg(ty string, sample error) {
+	Samples[ty] = sample
 	t := reflect.TypeOf(sample).String()
 	GoType2Ty[t] = ty
 	k := string(errors.GetTypeKey(sample))
@@ -136,6 +140,7 @@ func init() {
 	reg("grpcStatus", grpcstatus.Error(codes.NotFound, "x"))
 	reg("uPtrLeaf", &utypes.UPtrLeaf{})
 	reg("uValLeaf", utypes.UValLeaf{})
+	reg("uValPtrLeaf", &utypes.UValLeaf{})
 	reg("uRegLeaf", &utypes.URegLeaf{})
 	reg("uIsLeaf", &utypes.UIsLeaf{})
 	reg("uIsIdLeaf", &utypes.UIsIdLeaf{})
